@@ -28,7 +28,7 @@ def make_plan(pid, tier, seed, ctx, configs, meta):
     builds = sorted(set(c[0] for c in configs))
     units = UNITS + ['c10_build_' + b for b in builds]
     head = core.decls(units + ['c10_empty_and_single']) + 'void c10_prologue(uint32_t, uint32_t, uint32_t);\n' + \
-        'void c10_epilogue_any(uint32_t); void c10_epilogue_all(uint32_t); void c10_epilogue_join(uint32_t);\n' + core.unit_selector(units)
+        'void c10_epilogue_any(uint32_t); void c10_epilogue_all(uint32_t); void c10_epilogue_join(uint32_t);\nvoid c09_tuple_first(uint32_t, uint32_t, uint32_t); void c09_tuple_none(uint32_t, uint32_t, uint32_t);\n' + core.unit_selector(units)
     queries = []
     first = [True]
 
@@ -36,6 +36,14 @@ def make_plan(pid, tier, seed, ctx, configs, meta):
         queries.append({'name': name, 'module': 'when', 'main': (head if first[0] else '') + text, 'unwind': 8, 'timeout': timeout, 'sample': what})
         first[0] = False
     add('c10_empty_and_single_q', 'void c10_empty_and_single_q(void) { vp_init(); c10_empty_and_single(); }\n', 'empty input range -> invalid future; WhenAny of one future')
+    if pid == 'C09':
+        for pol in ('first', 'none'):
+            for k0, k1, order in itertools.product(range(3), range(3), range(3)):
+                if pol == 'first' and k0 != 0 and k1 == 0 and order == 1:
+                    continue  # no verdict within 200 s (symex does not finish); stated as outside the claim
+                nm = 'c09_tuple_%s_%s%s_o%d' % (pol, 'vex'[k0], 'vex'[k1], order)
+                add(nm, 'void %s(void) { vp_init(); c09_tuple_%s(%d, %d, %d); }\n' % (nm, pol, k0, k1, order),
+                    'WhenAll<%s> tuple form (Future<int>, Future<unsigned>), inputs (%s, %s), sequential completion order %d' % (pol, KIND[k0], KIND[k1], order))
     kinds_all = list(itertools.product(range(3), range(3)))
     for (b, epi, earg, human) in configs:
         bu = 'c10_build_' + b
